@@ -1620,7 +1620,10 @@ def module_constants(tree):
     def literal(e):
         if isinstance(e, ast.Constant):
             return True
-        if isinstance(e, (ast.Tuple, ast.List, ast.Set)):
+        if isinstance(e, ast.Tuple):
+            # (immutable values only: a module-level list / dict / set is
+            # one shared object, writing it out at its uses would not be
+            # the same program)
             return all(literal(x) or isinstance(x, (ast.Name, ast.Attribute))
                        for x in e.elts)
         if isinstance(e, ast.BinOp) and isinstance(e.op, (ast.Add, ast.Mod)):
